@@ -21,6 +21,12 @@ Definition wf_space (ms : mspace) : Prop :=
   (forall c i, In c cl -> cstart c <= i < cend c ->
                nth_error (choices_index ms) (Z.to_nat i) = Some (Some c)).
 
+(* list-level part of well-formedness (enough for enumeration, mutation and constraining; it is
+   what a localized space inherits): choices well-formed, segments increasing and disjoint *)
+Definition wf_choices (ms : mspace) : Prop :=
+  Forall wf_choice (choices_list ms) /\
+  StronglySorted (fun a b => cend a <= cstart b) (choices_list ms).
+
 (* t carries, on the segment of c, one of c's variants *)
 Definition holds (c : choice) (t : dna) : Prop := In (slice t (cstart c) (cend c)) (cvariants c).
 Definition member (ms : mspace) (t : dna) : Prop := Forall (fun c => holds c t) (choices_list ms).
@@ -35,3 +41,6 @@ Definition valid_answer (q : req) (a : list Z) : Prop :=
 Definition valid_run (stream : list (list Z)) (r' : rstate) : Prop :=
   Forall2 valid_answer (r_log r') (firstn (List.length (r_log r')) stream) /\
   r_stream r' = skipn (List.length (r_log r')) stream.
+
+Lemma wf_space_choices : forall ms, wf_space ms -> wf_choices ms.
+Proof. intros ms (W1 & W2 & _ & _). split; assumption. Qed.
